@@ -116,7 +116,8 @@ def instances(tier):
     for n, rho, r0, dr, nswp, ch in ex:
         out.append({'func': 'h_exact', 'params': {'n': n, 'rho': rho, 'r0': r0, 'dr': list(dr), 'nswp': nswp, 'choices': ch},
                     'opts': G})
-    ca = [([2, 2], 1, 1, (0, 0), 1), ([2, 2], 1, 1, (0, 0), 2), ([2, 2, 2], 1, 1, (0, 0), 1), ([2, 3], 2, 1, (1, 1), 2)]
+    ca = [([2, 2], 1, 1, (0, 0), 1), ([2, 2], 1, 1, (0, 0), 2), ([2, 2, 2], 1, 1, (0, 0), 1), ([2, 3], 2, 1, (1, 1), 2),
+          ([2, 2], 1, 1, (0, 0), 0), ([2, 3], 2, 1, (1, 1), 0)]          # nswp = 0: the run stops before the first sweep
     if not quick:
         ca += [([3, 3], 2, 2, (0, 0), 2), ([2, 2, 2], 2, 1, (1, 1), 2)]
     for n, rho, r0, dr, nswp in ca:
